@@ -23,6 +23,7 @@ var (
 	ErrSpaceKeeperIsConfiguring     = errors.New("spaceKeeper is configuring")
 	ErrSpaceKeeperConfiguredNothing = errors.New("configured nothing for spaceKeeper")
 	ErrSpaceKeeperChangeDBDirs      = errors.New("cannot change dbDirs")
+	ErrSpacePlotterIsBusy           = errors.New("too many pending plot requests")
 
 	ErrConfigUnderSizeTarget = errors.New("target disk size is smaller than lower bound")
 	ErrOSDiskSizeNotEnough   = errors.New("os disk size is not enough")
